@@ -3,63 +3,51 @@
    The calendar part is a finite domain (213301 days, 86400 seconds of a day): decided by evaluation in the
    kernel (vm_compute) over the WHOLE domain and lifted by all_from_spec; the bound is in the theorem. *)
 From Coq Require Import Ascii String List NArith ZArith Bool Arith Lia.
-Require Import Bytes DateModel.
+Require Import Bytes DateModel DateSweepDefs DateSweep1 DateSweep2 DateSweep3 DateSweep4 DateSweep5.
 Import ListNotations.
 Local Open Scope Z_scope.
 
-Fixpoint all_from (fuel : nat) (z : Z) (p : Z -> bool) : bool :=
-  match fuel with O => true | S f => p z && all_from f (z + 1) p end.
-
-Lemma all_from_spec : forall fuel z p, all_from fuel z p = true -> forall k, z <= k < z + Z.of_nat fuel -> p k = true.
+Lemma in_chunks (p : Z -> bool) :
+  all_from (Z.to_nat 53325) (day_lo + 0 * chunk) p = true -> all_from (Z.to_nat 53325) (day_lo + 1 * chunk) p = true ->
+  all_from (Z.to_nat 53325) (day_lo + 2 * chunk) p = true -> all_from (Z.to_nat 53326) (day_lo + 3 * chunk) p = true ->
+  forall d, day_lo <= d < day_lo + day_count -> p d = true.
 Proof.
-  induction fuel as [|f IH]; intros z p H k Hk; [lia|].
-  cbn [all_from] in H. apply andb_true_iff in H. destruct H as [H0 H1].
-  destruct (Z.eq_dec k z) as [->|Hne]; [exact H0|]. apply (IH (z + 1) p H1). lia.
+  unfold day_lo, day_count, chunk. intros H0 H1 H2 H3 d Hd.
+  destruct (Z_lt_ge_dec d (-106650 + 1 * 53325)) as [L1|G1].
+  { apply (all_from_Z 53325 _ _ ltac:(lia) H0). lia. }
+  destruct (Z_lt_ge_dec d (-106650 + 2 * 53325)) as [L2|G2].
+  { apply (all_from_Z 53325 _ _ ltac:(lia) H1). lia. }
+  destruct (Z_lt_ge_dec d (-106650 + 3 * 53325)) as [L3|G3].
+  { apply (all_from_Z 53325 _ _ ltac:(lia) H2). lia. }
+  apply (all_from_Z 53326 _ _ ltac:(lia) H3). lia.
 Qed.
 
-Definition day_ok (d : Z) : bool :=
-  (match day_parse (day_text d) with Some d' => d' =? d | None => false end) && Nat.eqb (length (day_text d)) 16.
-Definition time_ok (r : Z) : bool :=
-  (match time_parse (time_text r) with Some r' => r' =? r | None => false end) && Nat.eqb (length (time_text r)) 18.
-Definition civil_ok (d : Z) : bool :=
-  let '(y, m, dd) := civil_from_days d in
-  (days_from_civil y m dd =? d) && (1 <=? m) && (m <=? 12) && (1 <=? dd) && (dd <=? last_day y m) && (1678 <=? y) && (y <=? 2261).
-
-Definition day_lo : Z := -106650.
-Definition day_count : Z := 213301.
-
-Lemma days_sweep : all_from (Z.to_nat day_count) day_lo day_ok = true.
-Proof. vm_compute. reflexivity. Qed.
-Lemma civil_sweep : all_from (Z.to_nat day_count) day_lo civil_ok = true.
-Proof. vm_compute. reflexivity. Qed.
-Lemma times_sweep : all_from (Z.to_nat 86400) 0 time_ok = true.
-Proof. vm_compute. reflexivity. Qed.
+Lemma days_all d : day_lo <= d < day_lo + day_count -> day_ok d = true.
+Proof. apply in_chunks; [exact days_sweep_1|exact days_sweep_2|exact days_sweep_3|exact days_sweep_4]. Qed.
+Lemma civil_all d : day_lo <= d < day_lo + day_count -> civil_ok d = true.
+Proof. apply in_chunks; [exact civil_sweep_1|exact civil_sweep_2|exact civil_sweep_3|exact civil_sweep_4]. Qed.
 
 Lemma day_roundtrip d : day_lo <= d < day_lo + day_count -> day_parse (day_text d) = Some d /\ length (day_text d) = 16%nat.
 Proof.
-  intros Hd. pose proof (all_from_spec _ _ _ days_sweep d) as H. rewrite Z2Nat.id in H by (vm_compute; discriminate).
-  specialize (H Hd). unfold day_ok in H. apply andb_true_iff in H. destruct H as [H1 H2].
+  intros Hd. pose proof (days_all d Hd) as H. unfold day_ok in H. apply andb_true_iff in H. destruct H as [H1 H2].
   apply Nat.eqb_eq in H2. split; [|exact H2].
   destruct (day_parse (day_text d)) as [d'|]; [|discriminate]. apply Z.eqb_eq in H1. subst. reflexivity.
 Qed.
 
 Lemma time_roundtrip r : 0 <= r < 86400 -> time_parse (time_text r) = Some r /\ length (time_text r) = 18%nat.
 Proof.
-  intros Hr. pose proof (all_from_spec _ _ _ times_sweep r) as H. rewrite Z2Nat.id in H by lia.
-  specialize (H Hr). unfold time_ok in H. apply andb_true_iff in H. destruct H as [H1 H2].
+  intros Hr. assert (H : time_ok r = true) by (apply (all_from_Z 86400 0 time_ok ltac:(lia) times_sweep); lia).
+  unfold time_ok in H. apply andb_true_iff in H. destruct H as [H1 H2].
   apply Nat.eqb_eq in H2. split; [|exact H2].
   destruct (time_parse (time_text r)) as [r'|]; [|discriminate]. apply Z.eqb_eq in H1. subst. reflexivity.
 Qed.
 
 (* the calendar conversion of date.h by itself: days -> (y, m, d) -> days is the identity, and the fields are a real date *)
 Theorem civil_roundtrip d : day_lo <= d < day_lo + day_count ->
-  let '(y, m, dd) := civil_from_days d in
+  forall y m dd, civil_from_days d = (y, m, dd) ->
   days_from_civil y m dd = d /\ 1 <= m <= 12 /\ 1 <= dd <= last_day y m /\ 1678 <= y <= 2261.
 Proof.
-  intros Hd. pose proof (all_from_spec _ _ _ civil_sweep d) as H. rewrite Z2Nat.id in H by (vm_compute; discriminate).
-  specialize (H Hd). unfold civil_ok in H. destruct (civil_from_days d) as [[y m] dd].
-  repeat (apply andb_true_iff in H; destruct H as [H ?]). apply Z.eqb_eq in H.
-  repeat match goal with Hx : (_ <=? _) = true |- _ => apply Z.leb_le in Hx end. lia.
+  intros Hd y m dd E. pose proof (civil_all d Hd) as H. rewrite civil_ok_unfold, E in H. exact (civil_chk_spec d y m dd H).
 Qed.
 
 Lemma sub_mid (a b c : bytes) off len : length a = off -> length b = len -> sub (a ++ b ++ c) off len = b.
